@@ -1078,3 +1078,190 @@ def inline_worker(tree, entry, anchor):
         ast.fix_missing_locations(ent)
         changed = True
     return changed
+
+
+def nest_workers(tree):
+    """closures that were moved out to module level get the state they used to share handed in as arguments
+    (`_reduce(item, stack, tokens)` called with the host's own `stack` and `tokens`, and passing them on unchanged when
+    it recurses).  Such private workers are read as closures of their one host again: an argument position through
+    which every call hands the same once-bound local of the host is dropped and the parameter reads that local.
+    Nothing else is touched: a worker that is used from two functions, whose state parameter is rebound, or that is
+    passed around as a value stays where it is."""
+    top = {s.name: s for s in tree.body if isinstance(s, FUNCS)}
+    if not top:
+        return False
+    where = {}          # worker name -> set of top-level function names (other than itself) referring to it
+    bad = set()
+    for s in tree.body:
+        for n in ast.walk(s):
+            if isinstance(n, ast.Name) and n.id in top and n.id.startswith('_') and not (isinstance(s, FUNCS) and s.name == n.id):
+                if isinstance(s, FUNCS):
+                    where.setdefault(n.id, set()).add(s.name)
+                else:
+                    bad.add(n.id)
+            if isinstance(n, ast.Attribute) and n.attr in top:
+                bad.add(n.attr)
+    for n in ast.walk(tree):
+        if isinstance(n, ast.Constant) and isinstance(n.value, str) and n.value in top:
+            bad.add(n.value)      # __all__, getattr by name, ...
+    changed = False
+    for fname in sorted(top):
+        if fname not in top:
+            continue
+        f = top[fname]
+        cands = {w for w in where if w not in bad and w != fname and w in top}
+        group = {w for w in cands if where[w] <= {fname} | cands and fname in where[w]}
+        grew = True
+        while grew:
+            grew = False
+            for w in sorted(cands - group):
+                if where[w] & group and where[w] <= group | {fname}:
+                    group.add(w)
+                    grew = True
+        shrunk = True
+        while shrunk:
+            shrunk = False
+            for w in sorted(group):
+                if not where[w] <= group | {fname}:
+                    group.discard(w)
+                    shrunk = True
+        if not group:
+            continue
+        # once-bound locals of the host, bound by a statement of its own top level
+        stores = {}
+        for n in ast.walk(f):
+            if isinstance(n, ast.Name) and isinstance(n.ctx, (ast.Store, ast.Del)):
+                stores[n.id] = stores.get(n.id, 0) + 1
+        fparams = {a.arg for a in f.args.args + f.args.kwonlyargs + f.args.posonlyargs} | ({f.args.vararg.arg} if f.args.vararg else set()) | ({f.args.kwarg.arg} if f.args.kwarg else set())
+        bound_at = {}
+        for i, s in enumerate(f.body):
+            tg = s.targets[0] if isinstance(s, ast.Assign) and len(s.targets) == 1 else s.target if isinstance(s, ast.AnnAssign) and s.value is not None else None
+            if isinstance(tg, ast.Name) and stores.get(tg.id) == 1 and tg.id not in fparams:
+                bound_at[tg.id] = i
+        ok = True
+        calls = {w: [] for w in group}        # (caller name, call node)
+        for caller in [fname] + sorted(group):
+            fn = top[caller]
+            called_funcs = set()
+            for n in ast.walk(fn):
+                if isinstance(n, ast.Call) and isinstance(n.func, ast.Name) and n.func.id in group:
+                    calls[n.func.id].append((caller, n))
+                    called_funcs.add(id(n.func))
+            for n in ast.walk(fn):
+                if isinstance(n, ast.Name) and n.id in group and id(n) not in called_funcs:
+                    ok = False                # handed around as a value
+        for w in group:
+            g = top[w]
+            a = g.args
+            if g.decorator_list or a.vararg or a.kwarg or a.posonlyargs or a.kwonlyargs or isinstance(g, ast.AsyncFunctionDef):
+                ok = False
+            if any(isinstance(n, (ast.Global, ast.Nonlocal)) for n in ast.walk(g)):
+                ok = False
+        if not ok:
+            continue
+
+        def arg_at(w, call, i):
+            g = top[w]
+            p = g.args.args[i].arg
+            if any(isinstance(x, ast.Starred) for x in call.args) or any(k.arg is None for k in call.keywords):
+                return False
+            if i < len(call.args):
+                return call.args[i]
+            for k in call.keywords:
+                if k.arg == p:
+                    return k.value
+            return None
+        threaded = {}
+        for w in group:
+            for i, p in enumerate(top[w].args.args):
+                threaded[(w, i)] = '?'
+        settled = False
+        rounds = 0
+        while not settled and rounds < 10:
+            settled = True
+            rounds += 1
+            for (w, i), cur in list(threaded.items()):
+                if cur is None:
+                    continue
+                val = cur
+                for caller, c in calls[w]:
+                    x = arg_at(w, c, i)
+                    v = None
+                    if isinstance(x, ast.Name):
+                        if caller == fname:
+                            v = x.id if x.id in bound_at else None
+                        else:
+                            ps = [q.arg for q in top[caller].args.args]
+                            v = threaded.get((caller, ps.index(x.id))) if x.id in ps else None
+                    if v is None:
+                        val = None
+                        break
+                    if v == '?':
+                        continue
+                    if val == '?':
+                        val = v
+                    elif val != v:
+                        val = None
+                        break
+                if val != cur:
+                    threaded[(w, i)] = val
+                    settled = False
+        plan = {}
+        for w in group:
+            g = top[w]
+            drop = {i: v for i, p in enumerate(g.args.args) for v in [threaded.get((w, i))] if v not in (None, '?')}
+            if not drop or not calls[w]:
+                ok = False
+                break
+            own_stores = {n.id for n in ast.walk(g) if isinstance(n, ast.Name) and isinstance(n.ctx, (ast.Store, ast.Del))}
+            names_in_g = {n.id for n in ast.walk(g) if isinstance(n, ast.Name)} | {q.arg for q in g.args.args}
+            for i, v in drop.items():
+                p = g.args.args[i].arg
+                if p in own_stores or (v != p and v in names_in_g):
+                    ok = False
+            # locals of the host that the worker would newly capture by accident: a worker-local name is still local
+            plan[w] = drop
+        if not ok:
+            continue
+        first_use = min(i for i, s in enumerate(f.body) if any(isinstance(n, ast.Name) and n.id in group for n in ast.walk(s)))
+        need = max(bound_at[v] for w in group for v in plan[w].values()) + 1
+        if need > first_use:
+            continue
+        if any(w in stores or w in fparams for w in group):
+            continue
+        for w in sorted(group):
+            g = top[w]
+            drop = plan[w]
+            ren = {g.args.args[i].arg: _name(v) for i, v in drop.items() if g.args.args[i].arg != v}
+            if ren:
+                sub = _Subst(names=ren)
+                g.body = [sub.visit(x) for x in g.body]
+            n_def = len(g.args.defaults)
+            n_args = len(g.args.args)
+            keep_idx = [i for i in range(n_args) if i not in drop]
+            defaults = {i: g.args.defaults[i - (n_args - n_def)] for i in range(n_args - n_def, n_args)}
+            names_ = [q.arg for q in g.args.args]
+            for caller, c in calls[w]:
+                new_args, new_kw = [], []
+                for i in range(n_args):
+                    x = arg_at(w, c, i)
+                    if i in drop or x is None:
+                        continue
+                    if i < len(c.args):
+                        new_args.append(x)
+                    else:
+                        new_kw.append(ast.keyword(arg=names_[i], value=x))
+                c.args, c.keywords = new_args, new_kw
+            g.args.args = [g.args.args[i] for i in keep_idx]
+            g.args.defaults = [defaults[i] for i in keep_idx if i in defaults]
+            if any(i in defaults for i in keep_idx) and not all(i in defaults for i in keep_idx[[j for j, i in enumerate(keep_idx) if i in defaults][0]:]):
+                g.args.defaults = []
+        moved = [top[w] for w in sorted(group, key=lambda w_: top[w_].lineno)]
+        for g in moved:
+            tree.body.remove(g)
+            del top[g.name]
+        f.body[first_use:first_use] = moved
+        changed = True
+    if changed:
+        ast.fix_missing_locations(tree)
+    return changed
